@@ -63,11 +63,18 @@ MUTANTS += [
   dict(id="mut:history-values-offset", subs=[sub("history.py", "  values_offset = buf_offset + 2 + n", "  values_offset = buf_offset + 1 + n", nth=0)], fire=["C30"]),
   # ---- C32
   dict(id="mut:wrong-flag-tested", subs=[sub("passive.py", "  has_damping = (damping != 0.0 or dpoly[0] != 0.0 or dpoly[1] != 0.0) and not (opt_disableflags & DisableBit.DAMPER)", "  has_damping = (damping != 0.0 or dpoly[0] != 0.0 or dpoly[1] != 0.0) and not (opt_disableflags & DisableBit.SPRING)")], fire=["C32"]),
+  # ---- R-SEQ.2 / R-BIND
+  dict(id="mut:friction-rows-counted-as-limits", subs=[sub("constraint.py", "        outputs=[\n          d.nf,\n          d.nefc,", "        outputs=[\n          d.nl,\n          d.nefc,", nth=0)], fire=["C05"]),
+  # ---- C26
+  dict(id="mut:inverse-passive-sign", subs=[sub("inverse.py", "  qfrc_inverse -= qfrc_passive_in[worldid, dofid]", "  qfrc_inverse += qfrc_passive_in[worldid, dofid]")], fire=["C26"]),
+  dict(id="mut:inverse-skips-velocity-stage", subs=[sub("inverse.py", "  forward.fwd_velocity(m, d)\n  sensor.sensor_vel(m, d)\n\n  invdiscrete", "  sensor.sensor_vel(m, d)\n\n  invdiscrete")], fire=["C26"]),
+  dict(id="mut:inverse-qacc-not-restored", subs=[sub("inverse.py", "    wp.copy(d.qacc, qacc_discrete)", "    pass")], fire=["C26"]),
   # ---- R-PAIR / C08
   # ---- R-WORLD.6 / R-TRACK / R-REF covered by the seeded changes C09_2 / C24_1 / C01_1
 ]
 
 REFACTORS = [
+  dict(id="ref:inverse-sum-reordered", subs=[sub("inverse.py", "  qfrc_inverse = qfrc_bias_in[worldid, dofid]\n  qfrc_inverse += Ma[worldid, dofid]", "  qfrc_inverse = Ma[worldid, dofid]\n  qfrc_inverse += qfrc_bias_in[worldid, dofid]")], silent=["C26"]),
   dict(id="ref:hoist-modulo-into-local", subs=[sub("derivative.py", "  mass = body_mass[worldid % body_mass.shape[0], bodyid]", "  body_mass_id = worldid % body_mass.shape[0]\n  mass = body_mass[body_mass_id, bodyid]")], silent=["C10", "C09", "C08"]),
   dict(id="ref:world-alias", subs=[sub("smooth.py", "  if bodyid != 0:\n    wp.atomic_add(subtree_com_out, worldid, pid, subtree_com_in[worldid, bodyid])", "  w = worldid\n  if bodyid != 0:\n    wp.atomic_add(subtree_com_out, w, pid, subtree_com_in[w, bodyid])")], silent=["C09", "C11", "C01"]),
   dict(id="ref:guard-negated-form", subs=[sub("collision_core.py", "  if cid < naconmax_in:\n    contact_dist_out[cid] = dist_in", "  if not (cid >= naconmax_in):\n    contact_dist_out[cid] = dist_in")], silent=["C16", "C17", "C04"]),
